@@ -742,12 +742,12 @@ theorem LInv.admit {S : List Nat} {p : Policy} (c v : Nat) (hi : LInv S p) : LIn
 
 
 theorem LInv.evictFromMain_go {S : List Nat} (fuel : Nat) : ∀ (p : Policy) (vq cq : Nat) (v c : Option Nat),
-    LInv S p → LInv S (evictFromMain.go p vq cq v c fuel) := by
+    LInv S p → LInv S (evictFromMainX.go p vq cq v c fuel).1 := by
   induction fuel with
-  | zero => intro p vq cq v c hi; unfold evictFromMain.go; exact hi
+  | zero => intro p vq cq v c hi; unfold evictFromMainX.go; exact hi
   | succ fuel ih =>
     intro p vq cq v c hi
-    unfold evictFromMain.go
+    unfold evictFromMainX.go
     simp only
     repeat' split
     all_goals first
@@ -759,7 +759,7 @@ theorem LInv.evictFromMain_go {S : List Nat} (fuel : Nat) : ∀ (p : Policy) (vq
 
 
 theorem LInv.evictNodes {S : List Nat} {p : Policy} (hi : LInv S p) : LInv S (evictNodes p) := by
-  unfold Policy.evictNodes evictFromMain
+  unfold Policy.evictNodes evictFromMain evictFromMainX
   simp only
   exact LInv.evictFromMain_go _ _ _ _ _ _ (hi.mv (mv_evictFromWindow p hi.c))
 
